@@ -62,6 +62,36 @@ fn drive_kvapp(r: &mut Rng, histories: u64) {
         }
     }
 }
+fn drive_malapp(r: &mut Rng, histories: u64) {
+    use crux_core::bridge::{Bridge, Request};
+    use wire_common::apps::malapp;
+    for _ in 0..histories {
+        let bridge: Bridge<malapp::App> = Bridge::new(crux_core::Core::new());
+        let mut pending: Vec<Request<malapp::EffectFfi>> = vec![];
+        for _ in 0..(2 + r.below(8)) {
+            let out = if !pending.is_empty() && r.coin(1, 2) {
+                let i = r.below(pending.len() as u64) as usize;
+                let bytes = match &pending[i].effect {
+                    malapp::EffectFfi::Ask(_) => bridge_opts().serialize(&malapp::Answer::arb(r)).unwrap(),
+                    malapp::EffectFfi::Watch(_) => bridge_opts().serialize(&malapp::Tick::arb(r)).unwrap(),
+                    malapp::EffectFfi::Render(_) => vec![],
+                };
+                let id = pending[i].id.0;
+                if matches!(pending[i].effect, malapp::EffectFfi::Ask(_)) { pending.remove(i); }
+                bridge.handle_response(id, &bytes).ok()
+            } else {
+                bridge.process_event(&bridge_opts().serialize(&malapp::MalEvent::arb(r)).unwrap()).ok()
+            };
+            if let Some(bytes) = out {
+                case_b("malapp", "(FSeq (FTypeName \"Request\"))", &bytes, "bridge");
+                if let Ok(reqs) = bridge_opts().deserialize::<Vec<Request<malapp::EffectFfi>>>(&bytes) {
+                    for q in reqs { if !matches!(q.effect, malapp::EffectFfi::Render(_)) { pending.push(q); } }
+                }
+                if let Ok(v) = bridge.view() { case_b("malapp", "(FTypeName \"MalView\")", &v, "bridge"); }
+            }
+        }
+    }
+}
 fn drive_zoo(r: &mut Rng, histories: u64) {
     use crux_core::bridge::Bridge;
     for _ in 0..histories {
@@ -131,4 +161,5 @@ fn main() {
     let hist = (per_type / 2).max(10);
     drive_kvapp(&mut r, hist);
     drive_zoo(&mut r, hist / 2);
+    drive_malapp(&mut r, hist / 2);
 }
